@@ -61,6 +61,7 @@ def run(chk):
     # then answer (requirements are not serialised; the waiter is re-established by re-running the step)
     rng = random.Random(chk.seed)
     for (label, prog, ext) in [("waiter(reqs k=1)+resume", sc.waiter(None, {"k": 1}), [("Resp1", None), ("Resp", None)]),
+                               ("two_waiters_one_step+resume", sc.two_waiters_one_step(), [("Resp1", None), ("Resp1", None), ("Resp", None), ("Resp", None)]),
                                ("waiter(timeout=5)+resume", sc.waiter(5), [("Resp", None)])]:
         for (tr, sched) in et.explore(prog, ext_menu=ext, max_depth=4, max_paths=chk.pick(6, 30), rng=random.Random(rng.random()),
                                       drain=False, max_ext=1):
